@@ -190,9 +190,16 @@ func c18Funcs() []c18fn {
 			}
 			return nil, "error"
 		}},
-		{name: "DATERANGE", arity: 2, dom: [][]any{{"2024-01-01", "a", "", 1.0}, {"2024-12-31", "b", "", 2.0}}, ref: func(a []any) (any, string) {
+		{name: "DATERANGE", arity: 2, dom: [][]any{{"2024-01-01", "a", "", 1.0, nil}, {"2024-12-31", "b", "", 2.0, nil}}, ref: func(a []any) (any, string) {
 			f, ok1 := textOf(a[0])
 			t, ok2 := textOf(a[1])
+			if a[0] == nil || a[1] == nil {
+				// an open bound: what stands for it is not fixed, but the other bound keeps its place
+				if (a[0] != nil && !ok1) || (a[1] != nil && !ok2) {
+					return nil, "abstain"
+				}
+				return openRange{a[0] != nil, f, a[1] != nil, t}, ""
+			}
 			if !ok1 || !ok2 {
 				return nil, "abstain"
 			}
@@ -250,6 +257,14 @@ func c18Funcs() []c18fn {
 			return nil, "error"
 		}},
 	}
+}
+
+// openRange: DATERANGE with a NULL bound - the bounds that are given sit at their positions.
+type openRange struct {
+	hasF bool
+	f    string
+	hasT bool
+	t    string
 }
 
 type hashLen int
@@ -437,6 +452,25 @@ func (p *c18) checkCall(r *core.CaseResult, f *c18fn, args []any) {
 	got := normalise(o.Rows[0].(map[string]any)["v"])
 	r.Nontrivial = true
 	switch w := want.(type) {
+	case openRange:
+		arr, ok := got.([]any)
+		bad := !ok || len(arr) != 2
+		if !bad && w.hasF && arr[0] != any(w.f) {
+			bad = true
+		}
+		if !bad && w.hasT && arr[1] != any(w.t) {
+			bad = true
+		}
+		if !bad && !w.hasF && arr[0] != nil && arr[0] != any("") {
+			bad = true
+		}
+		if !bad && !w.hasT && arr[1] != nil && arr[1] != any("") {
+			bad = true
+		}
+		if bad {
+			r.Fail(sig("open-bound"), fmt.Sprintf("%s(%s) = %s; the given bound must keep its position, the open one be NULL or empty", f.name, gq.Render(args), gq.Render(got)), cs)
+		}
+		r.Outcomes = append(r.Outcomes, "open-range")
 	case hashLen:
 		s, ok := got.(string)
 		o2 := p.call(f, args)
